@@ -57,7 +57,11 @@ func (c refCfg) yaml() string {
 				fmt.Fprintf(&b, "%spipeline: \"\"\n", first)
 			}
 			if len(s.deps) > 0 {
-				fmt.Fprintf(&b, "      depends_on: [%s]\n", strings.Join(s.deps, ", "))
+				q := make([]string, len(s.deps))
+				for i, d := range s.deps {
+					q[i] = fmt.Sprintf("%q", d)
+				}
+				fmt.Fprintf(&b, "      depends_on: [%s]\n", strings.Join(q, ", "))
 			}
 		}
 	}
@@ -80,7 +84,14 @@ func (c refCfg) line() string {
 			if s.task == "" {
 				ref = "p:" + s.pipeline
 			}
-			d := strings.Join(s.deps, "+")
+			// names are compared for equality only: blanks, tabs and the separators of this line are written as
+			// escapes (the encoding is injective on the names generated here)
+			esc := strings.NewReplacer(" ", "~s", "\t", "~t", "+", "~p", "/", "~d", ";", "~c", "|", "~b", "=", "~e")
+			ed := make([]string, len(s.deps))
+			for i, x := range s.deps {
+				ed[i] = esc.Replace(x)
+			}
+			d := strings.Join(ed, "+")
 			if d == "" {
 				d = "-"
 			}
@@ -196,6 +207,29 @@ func mutations(c refCfg, rng *rand.Rand) []refCfg {
 			m.pipelines[p][k].deps = append(m.pipelines[p][k].deps, "ghost")
 			m.mut = fmt.Sprintf("stage %s.%s depends_on unknown stage", p, s.name)
 			out = append(out, m)
+			// near misses of the name of an existing stage of the same pipeline: none of them is that stage
+			if k > 0 || len(c.pipelines[p]) > 1 {
+				other := c.pipelines[p][(k+1)%len(c.pipelines[p])].name
+				var near []string
+				for _, nm := range []string{other + " ", " " + other, other + "\t", strings.ToUpper(other), other + "x", other[:len(other)-1], other + "." + other} {
+					if nm != other && nm != "" && nm != s.name {
+						taken := false
+						for _, st := range c.pipelines[p] {
+							taken = taken || st.name == nm
+						}
+						if !taken {
+							near = append(near, nm)
+						}
+					}
+				}
+				if len(near) > 0 {
+					nm := near[rng.Intn(len(near))]
+					mn := cloneCfg(c)
+					mn.pipelines[p][k].deps = append(mn.pipelines[p][k].deps, nm)
+					mn.mut = fmt.Sprintf("stage %s.%s depends_on unknown stage %q (a near miss of %q)", p, s.name, nm, other)
+					out = append(out, mn)
+				}
+			}
 			// a stage name that exists only in ANOTHER pipeline
 			m2 := cloneCfg(c)
 			m2.pipelines[p][k].deps = append(m2.pipelines[p][k].deps, "elsewhere")
